@@ -10,6 +10,7 @@ class State:
         self.mentioned = {}      # id(formula) -> set of variables mentioned by inserted clauses/constraints
         self.numvar = {}         # id(formula) -> last seen declared number of variables
         self.keep = []           # strong references so that ids stay unique while armed
+        self.scanned = {}        # id(formula) -> number of stored rows already read by _catch_up
         self.events = {"clauses": 0, "constraints": 0, "groups": 0, "empty_groups": 0, "raises": 0}
         self.findings = []       # (kind, message)
         self.installed = False
@@ -34,6 +35,32 @@ def _see(F):
         S.findings.append(("numvar-decreased", "declared variables went from %d to %d" % (S.numvar[k], n)))
     S.numvar[k] = n
     return S.mentioned[k]
+
+
+def _catch_up(F, m):
+    """Clauses / constraints that reached the formula without passing the insertion hooks (a batch method that
+    appends by itself): read what is stored beyond the last position looked at, through the sequence protocol."""
+    k = id(F)
+    try:
+        total = len(F)
+    except Exception:       # noqa: BLE001
+        return
+    start = S.scanned.get(k, 0)
+    if total - start > 200000:
+        start = total - 200000
+    for i in range(start, total):
+        try:
+            row = F[i]
+        except Exception:   # noqa: BLE001
+            break
+        if len(row) >= 2 and isinstance(row[-2], str):
+            row = row[:-2]              # a constraint: relation and degree are not literals
+        for t in row:
+            if isinstance(t, int) and not isinstance(t, bool):
+                m.add(abs(t))
+            elif isinstance(t, tuple) and len(t) == 2 and isinstance(t[1], int):
+                m.add(abs(t[1]))
+    S.scanned[k] = total
 
 
 def install():
@@ -97,6 +124,7 @@ def install():
             return orig_group(self, vg)
         F = _formula_of(self)
         m = _see(F)
+        _catch_up(F, m)
         try:
             ids = list(vg)
         except Exception:
@@ -149,6 +177,7 @@ def watch():
             S.mentioned.clear()
             S.numvar.clear()
             S.keep.clear()
+            S.scanned.clear()
     S.last = S.findings[start:]
 
 
